@@ -8,7 +8,7 @@ from .. import astx, hooks, modgen, probe, valgen
 from ..core import REPO
 from ..refeval import Seq
 
-N_FILES = {"quick": 6, "thorough": 7500}
+N_FILES = {"quick": 16, "thorough": 7500}
 TIME_BUDGET = {"quick": 60, "thorough": 270}
 META = {
     "rule": "generated modules (real files): each case is a lambda passed to Select/Where/SelectMany whose free names resolve to closure cells "
